@@ -22,6 +22,7 @@ META = {
                      "max/min/sqrt/** semantics of the standard library"],
     "assumptions": ["values are real numbers; rounding is out of scope here (see C20)"],
 }
+META["explanation"] += ' Also COPY, partial / external writes of tracker state, derived constants next to a public parameter, iterables walked twice, process-wide NumPy error mode; the parts of the Welford state are identified by use.'
 MIN_INSTANCES = {"INDUCT": 12, "COUNT": 2, "RANGE": 1, "COPY": 2}
 
 P = lambda s: ("param", s)
